@@ -18,7 +18,8 @@ hint = {
  "k": "Prefer a change that only matters for LEGAL BUT UNUSUAL BEHAVIOUR OF THE CALLER'S OWN CODE: a user-supplied callback, handler, loader or function argument that calls back into the same object or package from inside the callback (re-entrancy), hands over its result early and keeps running, is still running when the next step of the mechanism starts, calls a cancel/finish/return function twice or late, returns a typed-nil or wrapped or sentinel error, panics with an unusual value, or passes nil / empty / zero / aliased arguments that the documentation allows. Ordinary callbacks that just compute and return must behave exactly as before.",
  "l": "Prefer a change that only matters at SCALE or after a long history: a size, count or duration far larger than anything the existing tests use (thousands of keys or items in flight, a buffer or batch that grows past a threshold, a counter that wraps, a capacity that is reached only after many operations, a history long enough for a cache, pool, free-list or compaction step to kick in), where small and short uses behave exactly as before. Avoid thresholds so large that a test would need more than a few seconds or more than a few hundred MB to reach them.",
  "c": "Prefer a change in one of the *secondary* files listed below (a call site, wrapper, middleware, interceptor, adapter, helper or convenience entry point of the mechanism) rather than in its core data structure, and one that needs an unusual but legal input, configuration or sequence to manifest.",
-}[variant]
+}
+hint = dict(hint, m=hint["b"], n=hint["e"], o=hint["g"])[variant]  # m, n, o: re-draws of b, e, g after the strengthening of sessions 4-5
 extra = ""
 if pid == "C20":
     extra = ("\nBuild note for this property only: the code lives in the nested Go module %s/tools/goctl, which cannot resolve all of its dependencies offline by itself. "
